@@ -9,7 +9,8 @@ use sourcemap::{DecodedMap, SourceMap, SourceMapHermes, SourceMapIndex};
 
 pub const BIG: i64 = 1 << 30; // numbers >= 2^30 are clamped to this sentinel (TLC integers are 32 bit)
 pub fn num(n: u32) -> i64 {
-    if (n as i64) >= BIG { BIG } else { n as i64 }
+    // u32::MAX keeps its own stand-in (2^31 - 1, the largest number the judge can hold); other numbers >= 2^30 are clamped
+    if n == u32::MAX { 2147483647 } else if (n as i64) >= BIG { BIG } else { n as i64 }
 }
 pub fn idx(n: u32) -> i64 {
     if n == !0 { -1 } else { num(n) }
